@@ -156,6 +156,8 @@ def run_case(case) -> Outcome:
         D.append(Discrepancy(f"C05/{kind}", detail))
 
     total = sum(e["len"] for e in layout)
+    if total > 64 or (case.get("pre_len") and sum(case["pre_len"]) > 64):
+        raise ValueError("generator error: layout of more than 64 bits is outside the property's domain")
     nontrivial = any(e["len"] % 8 for e in layout)
     off = 0
     offs = []
@@ -428,13 +430,13 @@ def config_path_cases():
                     "ops": [{"var": 0, "v": 9}, {"var": 1, "v": -2}, {"var": 2, "v": 200}, {"var": 3, "v": True}]},
                    **extra)
     # record members mapped by numeric sub-index, with sub-byte lengths; objects that declare limits
-    mlay = [{"dt": rc.UNSIGNED8, "len": 5, "sub": 2}, {"dt": rc.BOOLEAN, "len": 1, "sub": 1},
+    mlay = [{"dt": rc.UNSIGNED8, "len": 4, "sub": 2}, {"dt": rc.BOOLEAN, "len": 1, "sub": 1},
             {"dt": rc.INTEGER8, "len": 3, "sub": 254, "lim": [0, 2]}, {"dt": rc.INTEGER16, "len": 16, "sub": 3},
             {"dt": rc.UNSIGNED8, "len": 8, "lim": [2, 10]}, {"dt": rc.INTEGER32, "len": 32, "lim": [-5, 5]}]
     for via in ("add", "from_od"):
         for lookup in ("direct", "node_name", "node_index", "map_name", "map_pos"):
             yield {"layout": mlay, "frame": bytes([0xC3] * 8), "via": via, "lookup": lookup,
-                   "ops": [{"var": 0, "v": 21}, {"var": 1, "v": True}, {"var": 2, "v": -4}, {"var": 3, "v": -300},
+                   "ops": [{"var": 0, "v": 13}, {"var": 1, "v": True}, {"var": 2, "v": -4}, {"var": 3, "v": -300},
                            {"var": 4, "v": 200}, {"var": 4, "v": 0}, {"var": 5, "v": -(2 ** 31)},
                            {"var": 5, "v": 2 ** 31 - 1}, {"var": 2, "v": 3}]}
     # the same objects were mapped with other lengths before clear()
